@@ -17,7 +17,8 @@ through the public constructors (`Request.Built r m`, `BuiltRsp r m`), in the pr
 * an exception response comes back as that exception, never as a successful response.
 
 Hypotheses that remain are about the VALUE (see Props/C05Full.lean): `m.fits`, `m.InScope` /
-`InScopeRsp m`, `m.Framed` (`True` for the nine standard kinds).
+`InScopeRsp m` (a custom response code is none of the TEN the response decoder models: the nine standard
+codes and 0x07), `m.Framed` (`True` for the standard kinds and Read Exception Status).
 
 Open findings (not repaired, pinned by the unedited test-suite), hence `…_partial`:
 * D4 — `rtu::request_pdu_len` reads the byte count of 0x0F / 0x10 at the wrong offset, so
@@ -354,10 +355,27 @@ example : ∃ c, Coils.fromBools [true, false, true, true, false, false, true, t
 example : InScopeRsp (.custom 0x18 [0x00, 0x02, 0xAA, 0xBB]) ∧
     (Spec.RspMeaning.custom 0x18 [0x00, 0x02, 0xAA, 0xBB]).Framed := by
   refine ⟨?_, ⟨by decide, ?_⟩⟩
-  · show (0x18 : UInt8) ∉ modelledReqCodes
+  · show (0x18 : UInt8) ∉ modelledRspCodes
     decide
   show Spec.PduComplete .rsp _
   unfold Spec.PduComplete; decide +kernel
+
+/-- **Read Exception Status, end to end** — an instance of `rtu_response_end_to_end_partial` like any
+    fixed-layout kind: every status byte, every slave id, every buffer of at least five bytes; the five bytes
+    are `slave 07 s crc_lo crc_hi` and the value decoded from them means `ReadExceptionStatus(s)`
+    (`C04.rtu_rsp_encode_decode_read_exception_status`: it IS that value) -/
+theorem rtu_read_exception_status_end_to_end (s slave : UInt8) (buf : Bytes) (hl : 5 ≤ buf.length) :
+    ∃ n out r', Rtu.serverEncodeResponse slave (.ok (.readExceptionStatus s)) buf = .ok (n, out) ∧ n = 5 ∧
+      out.take n = slave :: [0x07, s] ++ Spec.crcWire (slave :: [0x07, s]) ∧
+      Rtu.clientDecodeResponse (out.take n) = .ok (some (slave, .ok r')) ∧
+      r'.sem = some (.readExceptionStatus s) :=
+  rtu_response_end_to_end_partial (.readExceptionStatus s) trivial trivial trivial (fun _ h => by cases h)
+    slave buf hl
+
+example : Rtu.serverEncodeResponse 0x11 (.ok (.readExceptionStatus 0x6D)) (List.replicate 5 0) =
+      .ok (5, [0x11, 0x07, 0x6D, 0xE2, 0x18]) ∧
+    Rtu.clientDecodeResponse [0x11, 0x07, 0x6D, 0xE2, 0x18] = .ok (some (0x11, .ok (.readExceptionStatus 0x6D))) := by
+  constructor <;> decide +kernel
 
 /-! ### exception responses -/
 
